@@ -97,14 +97,25 @@ func newSimConn(rt *Runtime, id int, cc *ConnCase) *SimConn {
 	// allocations are not attributed to a step of the server)
 	var total int64
 	c.enc = make([][]pgwire.Chunk, len(cc.Steps))
+	var carry []pgwire.Chunk
 	for si, st := range cc.Steps {
+		c.enc[si] = append(c.enc[si], carry...)
+		carry = nil
 		for i := range st.Msgs {
-			for _, ch := range st.Msgs[i].Encode() {
+			chunks := st.Msgs[i].Encode()
+			if i == len(st.Msgs)-1 && st.HoldBack > 0 && si+1 < len(cc.Steps) {
+				// the tail of the last message travels with the next step
+				chunks, carry = splitChunks(chunks, int64(st.HoldBack))
+			}
+			for _, ch := range chunks {
 				total += ch.Len()
 				if ch.Len() > 0 {
 					c.enc[si] = append(c.enc[si], ch)
 				}
 			}
+		}
+		for _, ch := range carry {
+			total += ch.Len()
 		}
 	}
 	c.budget = 100000 + 3*total
@@ -162,6 +173,37 @@ func readLive() (stack, heap uint64) {
 	s = []metrics.Sample{{Name: "/memory/classes/heap/objects:bytes"}}
 	metrics.Read(s)
 	return stack, s[0].Value.Uint64()
+}
+
+// splitChunks cuts a chunk list after n bytes.
+func splitChunks(chunks []pgwire.Chunk, n int64) (head, tail []pgwire.Chunk) {
+	for i, ch := range chunks {
+		l := ch.Len()
+		if n >= l {
+			head = append(head, ch)
+			n -= l
+			continue
+		}
+		if n > 0 {
+			if ch.Pat != nil {
+				// (a pattern chunk is cut at a multiple of its period only)
+				pl := int64(len(ch.Pat))
+				k := n / pl * pl
+				if k > 0 {
+					head = append(head, pgwire.Chunk{Pat: ch.Pat, N: k})
+				}
+				tail = append(tail, pgwire.Chunk{Pat: ch.Pat, N: l - k})
+			} else {
+				head = append(head, pgwire.Chunk{Lit: ch.Lit[:n]})
+				tail = append(tail, pgwire.Chunk{Lit: ch.Lit[n:]})
+			}
+		} else {
+			tail = append(tail, ch)
+		}
+		tail = append(tail, chunks[i+1:]...)
+		return head, tail
+	}
+	return head, nil
 }
 
 func readAllocBytes() uint64 {
@@ -402,7 +444,9 @@ func (c *SimConn) Close() error {
 			c.lastAlloc = now
 		}
 		c.rec("close", "")
-		c.CloseSeq = c.Events[len(c.Events)-1].Seq
+		if n := len(c.Events); n > 0 {
+			c.CloseSeq = c.Events[n-1].Seq
+		}
 		return nil
 	}
 	c.rec("close", "again")
@@ -477,7 +521,13 @@ type SimListener struct {
 }
 
 func newSimListener(rt *Runtime) *SimListener {
-	return &SimListener{rt: rt, offer: make(chan net.Conn, maxTasks), closed: make(chan struct{})}
+	n := maxTasks
+	if rt.C != nil && len(rt.C.Conns) >= n {
+		n = len(rt.C.Conns) + 1
+	}
+	// (room for every connection of the case: offering never blocks, a server
+	// that stops accepting shows up as connections that were never served)
+	return &SimListener{rt: rt, offer: make(chan net.Conn, n), closed: make(chan struct{})}
 }
 
 // Accept implements net.Listener.
